@@ -38,8 +38,10 @@ pub enum FForm {
     Lets,
     ViaFn,
     Ccp,
+    /// narrow results only: `log((e).as_u64())` makes all 64 bits of the folded value observable
+    Widen,
 }
-const FFORMS: [FForm; 4] = [FForm::Direct, FForm::Lets, FForm::ViaFn, FForm::Ccp];
+const FFORMS: [FForm; 5] = [FForm::Direct, FForm::Lets, FForm::ViaFn, FForm::Ccp, FForm::Widen];
 
 #[derive(Clone, Debug)]
 pub struct Expr {
@@ -95,6 +97,16 @@ pub fn gen_expr(w: &Words) -> Expr {
     let b = if op.is_shift() {
         let mut amounts = SHIFT_AMOUNTS.to_vec();
         amounts.extend([t.bits() as u64 - 1, t.bits() as u64, t.bits() as u64 + 1]);
+        // operand-aware amounts: the highest set bit of `a` lands on / just beyond the top bit (<<) or on / just below bit 0 (>>)
+        if !a.is_zero() {
+            let p = a.bits() - 1;
+            let w_ = t.bits() as u64;
+            if op == Op::Lsh {
+                amounts.extend([(w_ - 1).saturating_sub(p), w_.saturating_sub(p), (w_ + 1).saturating_sub(p), (w_ - 1).saturating_sub(p), w_.saturating_sub(p)]);
+            } else {
+                amounts.extend([p.saturating_sub(1), p, p + 1]);
+            }
+        }
         BigUint::from(amounts[idx(w[4], amounts.len())])
     } else {
         match idx(w[4], 16) {
@@ -136,6 +148,9 @@ pub fn gen_expr(w: &Words) -> Expr {
         if matches!(e.k, KForm::ViaFn | KForm::ConstRef | KForm::Block) {
             e.k = KForm::Plain;
         }
+        e.f = if e.f == FForm::Widen { FForm::Widen } else { FForm::Direct };
+    }
+    if e.f == FForm::Widen && !matches!(e.rtype().as_str(), "u8" | "u16" | "u32") {
         e.f = FForm::Direct;
     }
     e
@@ -399,6 +414,7 @@ fn f_parts(i: usize, e: &Expr) -> (String, String) {
     let bt = if e.op.is_shift() { "u64" } else { tn };
     match e.f {
         FForm::Direct | FForm::Ccp => (String::new(), format!("    log({});\n", e.src())),
+        FForm::Widen => (String::new(), format!("    log(({}).as_u64());\n", e.src())),
         FForm::Lets => {
             if e.op.is_unary() {
                 (String::new(), format!("    let x{i}: {tn} = {a};\n    log({});\n", e.op.render(&format!("x{i}"), "")))
@@ -413,6 +429,16 @@ fn f_parts(i: usize, e: &Expr) -> (String, String) {
                 (format!("fn ff{i}(a: {tn}, b: {bt}) -> {r} {{ {} }}\n", e.op.render("a", "b")), format!("    log(ff{i}({a}, {b}));\n"))
             }
         }
+    }
+}
+
+fn f_expected(e: &Expr, r: &[u8]) -> Vec<u8> {
+    if e.f == FForm::Widen {
+        let mut out = vec![0u8; 8usize.saturating_sub(r.len())];
+        out.extend_from_slice(r);
+        out
+    } else {
+        r.to_vec()
     }
 }
 
@@ -560,7 +586,11 @@ fn mask(s: &str) -> String {
 }
 
 fn fail(route: &str, e: &Expr, what: &str, detail: String, src: &str, extra: Value) -> Fail {
-    let sig = format!("{route}:{}:{}:{}:{what}", e.t.name(), e.op.name(), e.shape());
+    let opn = match &e.second {
+        None => e.op.name().to_string(),
+        Some((op2, _, _)) => format!("{}+{}", e.op.name(), op2.name()),
+    };
+    let sig = format!("{route}:{}:{}:{}:{what}", e.t.name(), opn, e.shape());
     let m = e.model().map(hex::encode);
     (
         sig,
@@ -688,6 +718,7 @@ fn f_check(items: &[(usize, &Expr, Vec<u8>)], rep: &Report, st: &mut BatchStats)
                 let o = exec::run_script(&bc, &[]);
                 let logs = all_logs(&o);
                 for (k, (_, e, r)) in items.iter().enumerate() {
+                    let r = &f_expected(e, r);
                     match logs.get(k) {
                         Some(got) if got == r => {
                             if lvl == "O1" {
@@ -888,8 +919,8 @@ pub fn run(ctx: &Ctx) {
     rep.assume("programs are compiled in process through sway_core::{compile_to_ast, ast_to_asm, asm_to_bytecode} with a pre-compiled std namespace (the path forc takes per package)");
     rep.assume("a compile-time evaluation that ends in an ordinary compile error ('Could not evaluate initializer to a const declaration') counts as declined, which the property allows");
     rep.assume("at most 2 run-time-aborting expressions per batch are compiled singly (cost); all returning expressions are checked");
-    rep.assume("a compilation that does not terminate within 120 s ends the check as inconclusive (exit 2), not as a violation");
-    crate::watch::spawn_watchdog("C06", 120);
+    rep.assume("a compilation that does not terminate within 600 s ends the check as inconclusive (exit 2), not as a violation");
+    crate::watch::spawn_watchdog("C06", 600);
     corpus_check(&rep);
     let cases = ctx.cases(150, 4_000);
     let explore = std::env::var("C06_EXPLORE").is_ok();
